@@ -253,6 +253,9 @@ pub struct ExecCfg {
     /// (thread, k): the thread is suspended for good when it reaches its k-th scheduling point,
     /// holding whatever it holds; the others run on (C18 freeze sweep)
     pub freeze: Option<(usize, u64)>,
+    /// the thread named by `freeze` is not suspended for good but held back until no other thread
+    /// can make progress (all blocked, parked, finished or yielding), then runs on (hold sweep)
+    pub freeze_holds: bool,
 }
 
 impl Default for ExecCfg {
@@ -268,6 +271,7 @@ impl Default for ExecCfg {
             fut_quiet_bound: 0,
             cyclic: false,
             freeze: None,
+            freeze_holds: false,
         }
     }
 }
@@ -929,7 +933,11 @@ impl Sched {
             }
         }
         if let Some((v, k)) = st.cfg.freeze {
-            if v == me && st.threads[me].steps == k {
+            if v == me && st.threads[me].steps == k && st.cfg.freeze_holds {
+                // same mechanism as Policy::StallCall without a release time
+                st.threads[me].stalled = true;
+                st.stall_release_at = None;
+            } else if v == me && st.threads[me].steps == k {
                 // never returns normally: the thread is unwound when the execution is torn down
                 return self.block(st, me, Block::Frozen);
             }
